@@ -482,3 +482,18 @@ Example ex_two_writers :
   let '(called2, refused2, s4) := limit_check cf 2 [] s0 in
   called2 = true /\ refused2 = true /\ height (wstep cf s0 (WPublish 2 true [])) = 3.
 Proof. vm_compute. repeat split; try reflexivity; try discriminate. Qed.
+
+(* ---- createSignedDataToSubmit TRANSLATED FROM THE SOURCE (Check/GoLiteSignedData.v, regenerated on every run) -----
+   The walk over the pending data with the code's own body keeps exactly the pending heights that carry
+   transactions, in order, one signed item each (the `filter f r` of tick_side), and never leaves the function when
+   signing succeeds. *)
+From Verif Require Check.GoLiteSignedData Proofs.GoLiteSignedDataRefine.
+Theorem C06_translated_signed_data_walk_is_filter_full : forall (f : N -> bool) (hs : list N) (acc : list GoLite.gval),
+  GoLiteSignedDataRefine.code_walk f acc hs = (false, acc ++ map GoLiteSignedDataRefine.item_of (filter f hs)).
+Proof. exact GoLiteSignedDataRefine.code_walk_is_filter. Qed.
+Print Assumptions C06_translated_signed_data_walk_is_filter_full.
+
+Theorem C06_translated_submitted_data_heights_full : forall (f : N -> bool) (hs : list N),
+  flat_map GoLiteSignedDataRefine.height_of (snd (GoLiteSignedDataRefine.code_walk f [] hs)) = filter f hs.
+Proof. exact GoLiteSignedDataRefine.submitted_heights_are_the_nonempty_ones. Qed.
+Print Assumptions C06_translated_submitted_data_heights_full.
